@@ -168,6 +168,7 @@ func buildC01(c *CheckCtx) {
 	c.addFunctionUnits(func(con *Contract) bool { return hasProp(con, "C01") })
 	c.addGram(gramWant{Shape: true})
 	c.addFrames("C01")
+	c.addScan()
 	c.runBoundedHarness("pkg/parser", "c01_bounded_test.go", "TestVCBoundedC01", []string{"VC_BOUND=" + c.boundN()},
 		"real parser.Parse on prefix·w for 17 mode-setting prefixes and every w over a 27-byte alphabet with |w| <= "+c.boundN()+", 3 version classes, with and without callback, 400 ms watchdog", "panic", "hang", "buffer")
 	c.Explain = "Proved per run (for all inputs): index/slice/nil/type-assertion safety, loop variants and frames of the scanner's helper functions (look-ahead predicates, call/ret/growCallStack, unget, token and position pools, NewLines), of the position builder, of the parser wrappers (NewLexer, NewParser, Parser.Lex/Error, parser.Parse) - each against its contract, with the helper preconditions as obligations at their verified call sites; for all 1014 grammar actions: every type assertion succeeds, no nil dereference, the optional callback is never called when nil, no stale $$ (under the inferred non-terminal contracts); the input buffer and the version are never written (frame over Parse's whole call tree). NOT proved: the generated scanner machine Lex as a whole (its calls satisfy the helper preconditions; progress) and the LR driver loop - for these a bounded stand-in runs the real parser exhaustively over a stated family of short inputs; it is labelled bounded and not counted."
@@ -192,6 +193,7 @@ func buildC04(c *CheckCtx) {
 	c.Technique = "contracts (WP over go/ssa) on the functions that give tokens their text, offsets and lines; leaf-value obligations for every grammar action; pools"
 	c.addFunctionUnits(func(con *Contract) bool { return hasProp(con, "C04") })
 	c.addGram(gramWant{Shape: true, Leaf: true})
+	c.addScan()
 	c.Explain = "Proved per run: setTokenPosition gives a token the offsets ts..te and the lines GetLine yields for ts and te-1; addFreeFloatingToken appends exactly one fresh token with the given id, Value = data[ps:pe] and that position; NewLines.Append keeps the line-start table strictly increasing and GetLine returns the 1-based line of an offset against it; ungetCnt/ungetStr shrink p and te together and never below ts; pools hand out distinct cells (C18); for every grammar action a leaf node's Value is the Value of a token stored in that node (concatenations in token order). NOT proved yet: the scanner machine's own obligations (Value == data[ts:te] at exit, tiling without gaps, the new_line action recording every line start, classification of trivia) - they need the E-SCAN pass."
 	c.assume("the generated scanner machine sets tkn.Value = data[ts:te] and calls the helpers with ps == ts, pe == te (not verified yet)")
 }
